@@ -394,12 +394,14 @@ func (gb *gcpBalancer) getReadySubConnRef(boundKey string) (*subConnRef, bool) {
 }
 
 func (gb *gcpBalancer) getSubConnRoundRobin(ctx context.Context) *subConnRef {
+	gb.mu.RLock()
 	if len(gb.scRefList) == 0 {
+		gb.mu.RUnlock()
 		gb.newSubConn()
+		gb.mu.RLock()
 	}
 	scRef := gb.scRefList[atomic.AddUint32(&gb.rrRefId, 1)%uint32(len(gb.scRefList))]
 
-	gb.mu.RLock()
 	if state := gb.scStates[scRef.subConn]; state == connectivity.Ready {
 		gb.mu.RUnlock()
 		return scRef
